@@ -126,3 +126,53 @@ func VerifH16c() {
 	nd.Assert(counts[0] <= 1, "H16c.early-job-at-most-once")
 	nd.Reach("H16c.end")
 }
+
+// VerifH16d: Run arriving while Stop is waiting for an in-flight job (and a second Stop racing
+// the first): Stop returns once the job has finished, nothing panics or hangs, the job ran once,
+// and whatever state the race leaves (stopped, or running again) a final Stop ends it.
+func VerifH16d() {
+	P := 2
+	nd.Bound("H16d.preemption_bound", P)
+	nd.SetPreemptionBound(P)
+	p := New(Options{NumWorkers: 1, SendDuration: 1})
+	ctx := context.Background()
+	p.Run(ctx)
+	counts := make([]int, 2)
+	gate := make(chan struct{})
+	inFlight := nd.Choice("job-in-flight-at-stop", 2) == 1
+	if inFlight {
+		p.Send(ctx, Event{Caller: "verif", Fn: func(ctx context.Context) error {
+			counts[0]++
+			<-gate
+			return nil
+		}})
+		nd.Quiescent() // the worker is inside the job
+		nd.Assert(counts[0] == 1, "H16d.job-started")
+	}
+	stopReturned := false
+	go func() {
+		p.Stop()
+		stopReturned = true
+	}()
+	if nd.Choice("racing-call", 2) == 0 {
+		go func() { p.Run(ctx) }()
+	} else {
+		go func() { p.Stop() }()
+	}
+	nd.Quiescent()
+	if inFlight {
+		close(gate)
+	}
+	nd.Quiescent() // (not JoinAll: the workers of a pool that is running again never exit)
+	nd.Assert(stopReturned, "H16d.stop-did-not-return-after-the-in-flight-job-finished")
+	nd.Assert(counts[0] <= 1, "H16d.job-ran-twice")
+	// whatever the race left: a job sent now runs at most once, and after a final Stop nothing starts
+	p.Send(ctx, Event{Caller: "verif", Fn: func(ctx context.Context) error { counts[1]++; return nil }})
+	nd.Quiescent()
+	nd.Assert(counts[1] <= 1, "H16d.later-job-ran-twice")
+	p.Stop()
+	snapshot := append([]int{}, counts...)
+	nd.Quiescent()
+	nd.Assert(counts[0] == snapshot[0] && counts[1] == snapshot[1], "H16d.job-started-after-stop")
+	nd.Reach("H16d.end")
+}
